@@ -117,7 +117,7 @@ def run(ctx):
                       {"kind": "race", "report": txt[-6000:]})
     # the recorded schedule traces must be behaviours of the pipeline specification
     if os.path.exists(trace) and not ctx.violations:
-        rt = ctx.tlc("PipelineTrace", c06.TCFG % trace, workers=1, label="c11_trace", allow_violation=True, timeout=1800, jvm="-XX:ParallelGCThreads=2")
+        rt = ctx.tlc("PipelineTrace", c06.TCFG % trace, workers=1, label="c11_trace", allow_violation=True, timeout=1800, jvm="-XX:ParallelGCThreads=2 -Xmx3g")
         if rt["violated"] is not None:
             if rt["violated"] != "POSTCONDITION":
                 raise vlib.ToolError("PipelineTrace failed on an invariant: %s" % rt["violated"])
@@ -176,7 +176,7 @@ def run(ctx):
         r = subprocess.run([exe, "-json", "--config.scan-tests=true"] + list(flags) + args, cwd=root, env=e, stdout=subprocess.PIPE,
                            stderr=subprocess.PIPE, text=True, timeout=300)
         ds, errs = proglib.parse_json_tree(r.stdout, root)
-        if errs or "panic:" in r.stderr or r.returncode != 0:
+        if errs or vlib.crashed(r.stderr) or r.returncode != 0:
             return None, (errs or r.stderr)[:600] if (errs or r.stderr) else "rc=%d" % r.returncode
         return by_pkg(proglib.dedup(ds)), None
 
